@@ -110,7 +110,8 @@ CHECKS = [
           "following text the image of \\c is c); the mirror has nine selectable repairs, totality and non-empty errors hold for all 2^9 combinations. Not mirrored, "
           "decided by a direct clause: the nest limit in force is the one given, on the written regex - a rule is accepted iff the regex crate on its own builds the "
           "written regex under the limit given (29 regexes x nest_limit 0..5 x three routes, and no limit x depths 5..300; before the repairs the limit in force was "
-          "two less: the \\A(?:..) wrapper is a concatenation AND a group; the first repair was one short and the check's grid found it).",
+          "two less: the \\A(?:..) wrapper is a concatenation AND a group; the first repair was one short and the check's grid found it). "
+          "Third session: family limits_in_force — size_limit / dfa_size_limit must be in force on the RegexBuilder limit of their own name (reference = the same wrapped regex compiled with exactly the given limits: builds iff, same CompiledTooBig payload, same lexemes).",
   "design_ref": "DESIGN.md §5 C11, §A.3",
   "note": _TB + "the %grmtools header end position and regex compilability are inputs of the mirror (header parser: C12; regex crate: oracle). Numeric limits are observed through the public LexFlags::try_from on the parsed section; for the nest limit the reference is the regex crate itself (RegexBuilder::new(written).nest_limit(n), i.e. regex-syntax's notion of nesting depth: groups, classes, repetitions, alternations and concatenations count one level each); ANCH trusts the regex crate's leftmost-first search; look-behind across lexemes is C09's known finding; alternation inside one rule is the regex crate's leftmost-first choice (observation, recorded per run).",
   "technique": "Coq proof on a mirror of the lex parser (escape rewriting = spec, totality, span indexing) + abstract-spec oracle + impl/mirror differential"},
@@ -130,7 +131,8 @@ CHECKS = [
           "Second audit round, white space before a constructor argument (/repo fdd053a, mirror flag fixed_ctor_ws): C12_header_ctor_ws_refuted (pinned: "
           "`Original( NoAction)` is IllegalName; repaired: the value of `Original(NoAction)`), C12_header_layout_insensitive_ctor (repaired: the same value for "
           "EVERY run of white space after the '('), C12_header_layout_sensitive_ctor_pinned; a fixed family of 440 sections in every run: implementation = mirror, "
-          "value = value of the section without that white space.",
+          "value = value of the section without that white space. "
+          "Third session: cfgrammar::markmap::MarkMap (what Header<T> is) mirrored function by function with explicit panics; C12_markmap_sorted_inv / _reachable_sorted / _never_panics over every operation sequence incl. the Entry API and merges; refinement to the abstract map (C12_markmap_insert/mark/get/remove_spec), merge_from per behaviour (C12_markmap_merge_spec, C12_merge_point_table, C12_merge_conflict_iff), unused/missing/keys exact; witnesses C12_merge_not_atomic, C12_merge_theirs_erases_value, C12_markmap_iter_complete_refuted (latent API defects, unreachable from the builders: C13_settings_never_use_theirs). Tie: 1 500 / 30 000 operation sequences on the real MarkMap<String,u32> vs the compiled model (vm_compute), transcripts equal.",
   "design_ref": "DESIGN.md §5 C12, §5E",
   "note": _TB + "span well-formedness of yacc errors/warnings/AST spans and of lex errors is proved for the repaired code (C12_yacc_error_spans_wellformed, C12_lex_error_spans_wellformed; action-span ends and pre-fix lex spans refuted); the native stack is modelled as a frame budget: with the repaired parser (nesting limit 64) 65 frames always suffice (C12_header_depth_bounded); the pinned parser is refuted for every budget (C12_header_depth_unbounded_refuted). SpannedDiagnosticFormatter is executed, not mirrored, in C12 (its row printer is C19's mirror; C12_format_spanned_any_number_of_spans re-exports C19's theorem).",
   "technique": "Coq proof (header, yacc and lex parser mirrors total; header spans well-formed) + impl/mirror differential + panic/hang/bad-span oracle on mutated specifications"},
@@ -259,7 +261,8 @@ CHECKS = [
           "selection). The execution part compares value, number of errors and every repairs() list IN ORDER on every input, calls the generated parse() three "
           "times per erroneous input, and reaches >= 50 inputs with >= 2 first-rank repair sequences per quick run; specifications whose generated module rustc "
           "rejects (names differing only in case, %parse-param named like a local of parse()) are measured as scope observations. Static fact P2: each "
-          "_reconstitute arm reads with the very configuration expression ctbuilder.rs serialises that format with (both read from the source).",
+          "_reconstitute arm reads with the very configuration expression ctbuilder.rs serialises that format with (both read from the source). "
+          "Third session: the settings in force — mirror of the header sequence of CTParserBuilder::build_inner on the MarkMap model: C13_settings_in_force (builder's value wins, else the section's, else the documented fallback / Missing yacckind; unused() = the section's other keys; never a panic or a merge conflict), C13_settings_merge_never_conflicts, C13_builder_setting_wins, C13_section_setting_used_otherwise, C13_unknown_keys_reported; tied by builder_sequence cases on the real MarkMap (part of ./check C12).",
   "design_ref": "DESIGN.md §5 C13",
   "category": "proof",
   "note": _TB + "rustc, quote!/prettyplease and the generated text are outside the model: pipeline equivalence is translation validation by compile-and-run (partial).",
@@ -286,9 +289,10 @@ CHECKS = [
           "cells are coherent for ANY cells, the mirror's state_actions = non-error cells plus %nonassoc-erased ones (refutation of the "
           "pinned code; repaired). For the mirrored construction (C01's from_yacc_mirror) coherence holds for EVERY grammar: "
           "C16_construction_coherent (all row clauses, every state reachable after gc: pager_mirror_all_reachable, every closed state the "
-          "LR(1) closure of its core). Tie: coherent_b and an independent re-computation on every state/token/rule of every generated table.",
+          "LR(1) closure of its core). Tie: coherent_b and an independent re-computation on every state/token/rule of every generated table. "
+          "Third session: the checker is EXACT — C16_coherent_b_exact / _exact_dump (accepted <-> coherent) from C16_all_reachable_b_reflects (saturation within nstates rounds) and C16_lr1_closure_exact / C16_closure_b_reflects (the reference closure's fuel suffices), under wf_grammar, vS1, vS5 and two dump conditions the extracted model evaluates on every dump (K exact=).",
   "design_ref": "DESIGN.md §5 C16",
-  "note": _TB + "reachability and closure clauses of coherent_b are proved sound only; completeness is covered by the independent Python re-computation.",
+  "note": _TB + "coherent_b is proved exact for dumps meeting the five boolean hypotheses of C16_coherent_b_exact_dump (evaluated on every dump of a run); the independent Python re-computation remains as a cross-check.",
   "technique": "Coq proof (verified coherence validator + mirror of the view computation) + exhaustive per-state differential"},
  {"id": "C08",
   "text": "Coq theorems on a literal mirror of Parser::lr / lr_upto / apply_repairs with value and span stacks and an action log, for ANY "
